@@ -1,5 +1,6 @@
 SPECIFICATION Spec
 CONSTANTS
+  BeginOnce = TRUE
   MaxIdx = 2
   Timeouts = {0, 1, 2}
   MaxH = 6
